@@ -205,6 +205,12 @@ func readerLayout(p *Program, fn *ssa.Function) ([]layoutElem, []string) {
 				return // the empty-input shortcut
 			}
 		}
+		// a path that reports an error of the decoder's own is not a success either
+		if !pr.Results[0].IsNil() {
+			if k, isNil := pr.Facts.Decide(eqTerm(pr.Results[0], nilTerm(nil))); !(k && isNil) {
+				return
+			}
+		}
 		recv := &Term{Op: "sym", Name: "p:" + fn.Params[0].Name(), Type: fn.Params[0].Type()}
 		// a decoded record is what the bytes say: no field is set to a constant of the decoder's own
 		for _, e := range pr.Events {
@@ -213,6 +219,12 @@ func readerLayout(p *Program, fn *ssa.Function) ([]layoutElem, []string) {
 					continue
 				}
 				notes = append(notes, "the decoder sets "+e.Addr.Name+" to a constant of its own ("+prettyTerm(e.Val)+") instead of what the record holds")
+			}
+			if e.Kind == "store" && e.Addr.Op == "fa" && e.Addr.Args[0].Key() == recv.Key() && e.Val.contains(func(x *Term) bool { return x.Op == "global" }) {
+				switch e.Val.Type.Underlying().(type) {
+				case *types.Map, *types.Slice, *types.Pointer:
+					notes = append(notes, "the decoder puts a package-level object ("+prettyTerm(e.Val)+") into "+e.Addr.Name+": every decoded record then shares it, and what is decoded into it later (a map is merged into, not replaced) shows up in all of them")
+				}
 			}
 		}
 		dest := func(t *Term, from int) string {
